@@ -13,6 +13,13 @@
 //!   rmtrash              unlink every file in trash/ (what the verifier's clean-up does)
 //!   verify               run lsmtk::LsmVerifier::verify() in this process
 //!   reg                  allocation registry counters
+//!   topen ID LO HI       a scan through the TREE api (LsmTree::range_scan: the version only, timestamp u64::MAX)
+//!   stepinj ID OP K KEY VAL   one cursor call with a put(KEY, VAL) (VAL `~` = del) performed INSIDE the call, from the
+//!                        skipfree hook, at the K-th hook event of the call on this thread (a placed concurrent write);
+//!                        appends ` INJ:<done>:<hook events seen>`
+//!   conc2 T R K W        second concurrent stage: K keys in many small ssts below L0 (written, flushed, compacted), then T
+//!                        scanner threads walk the whole range R times each, lined up by a barrier (lazy opens of the same
+//!                        ssts at the same time), while W writer threads overwrite and delete a few hot keys under the scanners
 //!   conc R B S C         the concurrent stage: one thread writes R batches of B keys (own prefix and marker value per
 //!                        batch), S threads issue single puts all the time, C threads open scan cursors on the batch about
 //!                        to complete (and on the one completed last) and walk each three times; prints
@@ -37,7 +44,47 @@ static FREES: AtomicUsize = AtomicUsize::new(0);
 static DEREFS: AtomicUsize = AtomicUsize::new(0);
 static BAD: AtomicUsize = AtomicUsize::new(0);
 
+// ---- a write placed inside a cursor call (stepinj)
+static KVS_PTR: AtomicUsize = AtomicUsize::new(0);
+thread_local! {
+    static INJ_ARMED: std::cell::Cell<bool> = const { std::cell::Cell::new(false) };
+    static INJ_AT: std::cell::Cell<usize> = const { std::cell::Cell::new(0) };
+    static INJ_SEEN: std::cell::Cell<usize> = const { std::cell::Cell::new(0) };
+    static INJ_DONE: std::cell::Cell<usize> = const { std::cell::Cell::new(0) };
+    static INJ_KV: std::cell::RefCell<(Vec<u8>, Option<Vec<u8>>)> = const { std::cell::RefCell::new((Vec::new(), None)) };
+}
+
+fn maybe_inject(phase: usize) {
+    if phase == 0 || !INJ_ARMED.with(|a| a.get()) {
+        return;
+    }
+    let seen = INJ_SEEN.with(|c| { c.set(c.get() + 1); c.get() });
+    if seen != INJ_AT.with(|c| c.get()) {
+        return;
+    }
+    INJ_ARMED.with(|a| a.set(false));
+    let p = KVS_PTR.load(Ordering::SeqCst);
+    if p == 0 {
+        return;
+    }
+    let kvs: &'static KeyValueStore = unsafe { &*(p as *const KeyValueStore) };
+    let (k, v) = INJ_KV.with(|kv| kv.borrow().clone());
+    let ok = match v {
+        Some(v) => kvs.put(&k, &v).is_ok(),
+        None => kvs.del(&k).is_ok(),
+    };
+    INJ_DONE.with(|d| d.set(if ok { 1 } else { 2 }));
+    // keep counting the events of the rest of the call
+    INJ_ARMED.with(|a| a.set(true));
+    INJ_AT.with(|c| c.set(usize::MAX));
+}
+
 fn registry_hook(phase: usize, kind: usize, node: usize, _level: usize, _cell: usize) {
+    registry_hook_inner(phase, kind, node);
+    maybe_inject(phase);
+}
+
+fn registry_hook_inner(phase: usize, kind: usize, node: usize) {
     if phase != 2 {
         // an atomic operation on a successor cell: the node holding the cell is dereferenced
         if phase == 0 {
@@ -313,6 +360,114 @@ fn conc_stage(kvs: &'static KeyValueStore, rounds: usize, batch: usize, smalls: 
         partial.load(Ordering::Relaxed), missing.load(Ordering::Relaxed), errors.load(Ordering::Relaxed), completed.load(Ordering::SeqCst), f.join(" "))
 }
 
+// ---- the second concurrent stage: many scanners over many small ssts below L0 (lazy opens of the same files at the same
+//      time, sst cache off), writers overwriting and deleting a few hot keys in the live memtable under the scanners
+fn conc2_stage(kvs: &'static KeyValueStore, threads: usize, rounds: usize, keys: usize, writers: usize) -> String {
+    use std::sync::atomic::AtomicBool;
+    use std::sync::{Arc, Barrier};
+    skipfree::verif::set_hook(None);
+    // the tree: keys in chunks, each chunk flushed, then compacted as far as the selector goes
+    let chunk = 25usize;
+    let mut i = 0usize;
+    while i < keys {
+        let mut wb = WriteBatch::with_capacity(chunk);
+        for j in i..(i + chunk).min(keys) {
+            wb.put(format!("k{j:06}").as_bytes(), format!("v{j}").as_bytes());
+        }
+        if kvs.write(wb).is_err() { return "CONC2 setup-write-failed".to_string(); }
+        let target = kvs.verif_request_flush();
+        kvs.verif_wait_flush(target);
+        i += chunk;
+    }
+    let mut steps = 0usize;
+    loop {
+        match kvs.verif_tree().verif_compaction_step() {
+            Ok(None) => break,
+            Ok(Some(_)) => { steps += 1; if steps > 400 { break; } }
+            Err(_) => return "CONC2 setup-compaction-failed".to_string(),
+        }
+    }
+    let files = kvs.verif_tree().verif_dump().len();
+    let deep = kvs.verif_tree().verif_dump().iter().filter(|(lvl, _)| *lvl > 0).count();
+    // hot keys: in the live memtable, overwritten and deleted all the time
+    let hot = 12usize;
+    for h in 0..hot {
+        if kvs.put(format!("k{:06}", h * (keys / hot).max(1)).as_bytes(), b"hot0").is_err() { return "CONC2 setup-write-failed".to_string(); }
+    }
+    let done = Arc::new(AtomicBool::new(false));
+    let scans = Arc::new(AtomicUsize::new(0));
+    let unstable = Arc::new(AtomicUsize::new(0));
+    let panics = Arc::new(AtomicUsize::new(0));
+    let errors = Arc::new(AtomicUsize::new(0));
+    let first: Arc<Mutex<Vec<String>>> = Arc::new(Mutex::new(vec![]));
+    let mut whandles = vec![];
+    for w in 0..writers {
+        let (done, errors) = (done.clone(), errors.clone());
+        whandles.push(std::thread::spawn(move || {
+            let mut n = 0u64;
+            while !done.load(Ordering::Relaxed) && n < 30000 {
+                if n % 8 == 7 { std::thread::sleep(std::time::Duration::from_micros(30)); }
+                let h = (n as usize * 7 + w) % hot;
+                let key = format!("k{:06}", h * (keys / hot).max(1));
+                let r = if n % 5 == 4 { kvs.del(key.as_bytes()) } else { kvs.put(key.as_bytes(), format!("w{w}-{n}").as_bytes()) };
+                if r.is_err() { errors.fetch_add(1, Ordering::Relaxed); break; }
+                n += 1;
+            }
+        }));
+    }
+    let barrier = Arc::new(Barrier::new(threads));
+    let mut handles = vec![];
+    for sid in 0..threads {
+        let (scans, unstable, panics, errors, first, barrier) = (scans.clone(), unstable.clone(), panics.clone(), errors.clone(), first.clone(), barrier.clone());
+        handles.push(std::thread::spawn(move || {
+            for round in 0..rounds {
+                barrier.wait();
+                let r = std::panic::catch_unwind(std::panic::AssertUnwindSafe(|| -> Result<bool, String> {
+                    let lo: Bound<Vec<u8>> = Bound::Unbounded;
+                    let hi: Bound<Vec<u8>> = Bound::Unbounded;
+                    let mut cursor = kvs.range_scan(&lo, &hi).map_err(|e| err_class2(&e))?;
+                    let (a, b, c) = if (sid + round) % 2 == 0 {
+                        (walk_backward(&mut cursor)?, walk_forward(&mut cursor)?, walk_backward(&mut cursor)?)
+                    } else {
+                        (walk_forward(&mut cursor)?, walk_backward(&mut cursor)?, walk_forward(&mut cursor)?)
+                    };
+                    Ok(a == b && b == c && a.len() + hot >= keys)
+                }));
+                scans.fetch_add(1, Ordering::Relaxed);
+                match r {
+                    Err(_) => {
+                        panics.fetch_add(1, Ordering::Relaxed);
+                        let mut f = first.lock().unwrap();
+                        if f.len() < 3 { f.push(format!("panic:scanner{sid}:round{round}")); }
+                    }
+                    Ok(Err(e)) => {
+                        errors.fetch_add(1, Ordering::Relaxed);
+                        let mut f = first.lock().unwrap();
+                        if f.len() < 3 { f.push(format!("err:{e}:scanner{sid}:round{round}")); }
+                    }
+                    Ok(Ok(true)) => {}
+                    Ok(Ok(false)) => {
+                        unstable.fetch_add(1, Ordering::Relaxed);
+                        let mut f = first.lock().unwrap();
+                        if f.len() < 3 { f.push(format!("unstable:scanner{sid}:round{round}")); }
+                    }
+                }
+            }
+        }));
+    }
+    let mut thread_panics = 0usize;
+    for h in handles {
+        if h.join().is_err() { thread_panics += 1; }
+    }
+    done.store(true, Ordering::Relaxed);
+    for h in whandles {
+        if h.join().is_err() { thread_panics += 1; }
+    }
+    let f = first.lock().map(|f| f.join(" ")).unwrap_or_default();
+    format!("CONC2 scans={} unstable={} panics={} errors={} files={} deep={} {}", scans.load(Ordering::Relaxed), unstable.load(Ordering::Relaxed),
+        panics.load(Ordering::Relaxed) + thread_panics, errors.load(Ordering::Relaxed), files, deep, f)
+}
+
 fn main() {
     let args: Vec<String> = std::env::args().collect();
     let root = args[1].clone();
@@ -340,6 +495,7 @@ fn main() {
             std::process::exit(0);
         }
     };
+    KVS_PTR.store(kvs as *const KeyValueStore as usize, Ordering::SeqCst);
     writeln!(out, "OPEN ok").unwrap();
     out.flush().unwrap();
     std::thread::spawn(move || {
@@ -398,6 +554,53 @@ fn main() {
                             if bad > 0 { format!("OPENED {} UAF:{}", t[1], bad) } else { format!("OPENED {}", t[1]) }
                         }
                     }
+                }
+                "topen" => {
+                    let lo: &'static Bound<Vec<u8>> = Box::leak(Box::new(bound(t[2])));
+                    let hi: &'static Bound<Vec<u8>> = Box::leak(Box::new(bound(t[3])));
+                    match kvs.verif_tree().range_scan(lo, hi) {
+                        Err(e) => format!("OPEN err {}", err_class2(&e)),
+                        Ok(c) => {
+                            cursors_ref.insert(t[1].to_string(), Box::new(c));
+                            format!("OPENED {}", t[1])
+                        }
+                    }
+                }
+                "stepinj" => {
+                    let Some(c) = cursors_ref.get_mut(t[1]) else { return format!("STEP nocursor {}", t[1]); };
+                    let step = t[2];
+                    let at: usize = t[3].parse().unwrap();
+                    let key = unhex(t[4]);
+                    let val = if t[5] == "~" { None } else { Some(unhex(t[5])) };
+                    INJ_KV.with(|kv| *kv.borrow_mut() = (key, val));
+                    INJ_AT.with(|c| c.set(at));
+                    INJ_SEEN.with(|c| c.set(0));
+                    INJ_DONE.with(|c| c.set(0));
+                    let bad0 = BAD.load(Ordering::Relaxed);
+                    INJ_ARMED.with(|a| a.set(true));
+                    let r = std::panic::catch_unwind(std::panic::AssertUnwindSafe(|| match step.as_bytes()[0] {
+                        b'F' => c.seek_to_first(),
+                        b'L' => c.seek_to_last(),
+                        b'N' => c.next(),
+                        b'P' => c.prev(),
+                        b'S' => c.seek(&unhex(&step[1..])),
+                        _ => panic!("bad step"),
+                    }));
+                    INJ_ARMED.with(|a| a.set(false));
+                    let tail = format!(" INJ:{}:{}", INJ_DONE.with(|d| d.get()), INJ_SEEN.with(|d| d.get()));
+                    let mut s = "STEP".to_string();
+                    match r {
+                        Err(_) => return format!("PANIC stepinj{tail}"),
+                        Ok(Err(e)) => s.push_str(&format!(" err:{}", err_class2(&e))),
+                        Ok(Ok(())) => match c.key_value() {
+                            Some(kv) => s.push_str(&format!(" {}@{}={}", hx0(kv.key), kv.timestamp, match kv.value { Some(v) => hx0(v), None => "~".to_string() })),
+                            None => s.push_str(" ."),
+                        },
+                    }
+                    let bad = BAD.load(Ordering::Relaxed) - bad0;
+                    if bad > 0 { s.push_str(&format!(" UAF:{}", bad)); }
+                    s.push_str(&tail);
+                    s
                 }
                 "step" => {
                     let Some(c) = cursors_ref.get_mut(t[1]) else { return format!("STEP nocursor {}", t[1]); };
@@ -466,6 +669,7 @@ fn main() {
                         Err(e) => format!("VERIFY err {}", err_class2(&e)),
                     },
                 },
+                "conc2" => conc2_stage(kvs, t[1].parse().unwrap(), t[2].parse().unwrap(), t[3].parse().unwrap(), t[4].parse().unwrap()),
                 "conc" => conc_stage(kvs, t[1].parse().unwrap(), t[2].parse().unwrap(), t[3].parse().unwrap(), t[4].parse().unwrap()),
                 "reg" => format!("REG allocs={} frees={} derefs={} bad={}", ALLOCS.load(Ordering::Relaxed), FREES.load(Ordering::Relaxed),
                     DEREFS.load(Ordering::Relaxed), BAD.load(Ordering::Relaxed)),
